@@ -546,7 +546,7 @@ pub struct Campaign { pub cov: Value, pub complete: bool, pub states: u64, pub t
 
 /// Farms the units out to one pinned process per core and aggregates
 pub fn explore_units(rep: &Reporter, focus: &[&str], units: &[Unit], budget_s: f64, exec_cap: u64) -> Campaign {
-    let dir = format!("{}/.build/sched", verif_dir());
+    let dir = format!("{}/sched", std::env::var("VERIF_BUILD").unwrap_or_else(|_| format!("{}/.build", verif_dir())));
     let _ = std::fs::create_dir_all(&dir);
     let file = format!("{}/units-{}-{}.json", dir, rep.property, std::process::id());
     std::fs::write(&file, serde_json::to_string(&units.iter().map(|u| u.json()).collect::<Vec<_>>()).unwrap()).unwrap();
